@@ -57,15 +57,15 @@ def bs(pid, text, technique):
                 engine="tlc+bs_driver", level_claimed=dict(category="model_checking", text=text, design_ref="DESIGN.md §4.1, §7 " + pid),
                 level_note=BS_NOTE, technique=technique)
 CHECKS += [
- bs("C08", "OutputsClean (every file output reachable from the built key equals the content the independent CleanText oracle derives from the source files) and SeenCurrent are TLC invariants of BuildSystem.tla over description families with chains, multi-output commands, phony aggregators, discovered headers and description switches (command changed, rewired, removed so that a produced node becomes a source) x histories of edits, deletions, tampering, node builds and new frontends; generated descriptions and histories are executed by the real BuildSystemFrontend in sandboxes and every observation (needs-to-run callbacks with reasons, command starts/finishes, result, file contents, every database row) must match the build the specification computes, OutputsClean being evaluated on every validated build.",
+ bs("C08", "OutputsClean (every file output reachable from the built key equals the content the independent CleanText oracle derives from the source files) and SeenCurrent are TLC invariants of BuildSystem.tla over description families with chains, multi-output commands, phony aggregators, discovered headers and description switches (command changed, rewired, removed so that a produced node becomes a source) x histories of edits, deletions, tampering, node builds and new frontends; generated descriptions and histories are executed by the real BuildSystemFrontend in sandboxes and every observation (needs-to-run callbacks with reasons, command starts/finishes, result, file contents, every database row) must match the build the specification computes, OutputsClean being evaluated on every validated build. Also modelled and exercised: client refusals (shouldCommandStart), builds cancelled at the first failure, command-timestamp and is-mutated nodes with in-place modification (family MC_BS4: InPlaceOnce, RunTogether). One listed finding (S19, allow-modified-outputs).",
     "TLA+ spec (BuildSystem.tla) model-checked with TLC + trace validation of real BuildSystemFrontend histories"),
  bs("C09", "NullBuildRunsNothing and NoSpuriousRerun (a command that ran had a changed input cone, definition or output) are TLC invariants; in trace validation the set of executed commands and each reported reason must equal the specification's, whose SignatureChanged decision is taken on the tuple of signature-relevant fields; single-attribute edits (arguments, environment, inputs, outputs, deps style, flags, explicit signature, list-boundary moves) and restarts are generated; the signatures stored in the database must be in bijection with the specification's signature tuples across all frontends of a history.",
     "TLA+ spec model-checked with TLC + trace validation (executed set, reasons, recorded signatures)"),
- bs("C10", "FailureStops (no non-phony consumer of a failed or skipped command runs; the build reports failure) and FailureRetried are TLC invariants; convergence after repair is OutputsClean on histories that remove the failure marker; bodies fail before or after writing their outputs, dependency files may be malformed, inputs may be missing; serial and 4-lane execution; every validated history compares statuses, propagated-failure values and the next build's executions with the specification.",
+ bs("C10", "FailureStops (no non-phony consumer of a failed or skipped command runs; the build reports failure) and FailureRetried are TLC invariants; convergence after repair is OutputsClean on histories that remove the failure marker; bodies fail before or after writing their outputs, dependency files may be malformed, inputs may be missing; serial and 4-lane execution; every validated history compares statuses, propagated-failure values and the next build's executions with the specification; the client's delegate refuses commands in a fifth of the builds (SkippedCommand results are never valid and are retried) and cancels some builds at the first failure. One listed finding (S33: a refused command between a failed command and its consumer lets the consumer run; FailureStops is stated modulo refused commands, the strict form RefusalHidesNoFailure is checked on the pinned scenario).",
     "TLA+ spec model-checked with TLC + trace validation with failing command bodies"),
  bs("C11", "Discovered dependencies are part of the recorded dependency list in BuildSystem.tla (requests followed by discovered nodes, brought up to date after the command); OutputsClean/SeenCurrent over histories that edit, delete and create discovered headers are TLC invariants; generated bodies write Makefile-style and dependency-info files naming paths with spaces, '#', '$', backslashes, colons, relative to the working directory; the database rows must list exactly those node keys byte for byte, and malformed files must fail the command.",
     "TLA+ spec model-checked with TLC + trace validation with generated dependency files"),
- bs("C12", "A directory input's value is the TreeObs/StructObs observation of the specification (own info, visible names, child infos, recursively; names and types only for structure inputs; exclusion patterns applied per name); SeenCurrent and NoSpuriousRerun are TLC invariants over trees of depth 3 with every single edit (add, remove, retype, content, touch; hidden names) for plain, filtered and structure inputs; sandboxes apply random tree edits (including renames) between builds and the executed set and epochs must match.",
+ bs("C12", "A directory input's value is the TreeObs/StructObs observation of the specification (own info, visible names, child infos, recursively; names and types only for structure inputs; exclusion patterns applied per name); SeenCurrent and NoSpuriousRerun are TLC invariants over trees of depth 3 with every single edit (add, remove, retype, content, touch; hidden names) for plain, filtered and structure inputs; sandboxes apply random tree edits (including renames) between builds and the executed set and epochs must match; tree roots produced by mkdir, commands writing into the directory ordered by must-scan-after-paths (family MC_BS5: WriterCurrent) and produced children are modelled.",
     "TLA+ spec model-checked with TLC + trace validation over edited directory trees"),
  bs("C14", "StaleOnlyObsolete and StaleAllObsolete are TLC invariants over all (previous expected list, current list, roots) combinations of a path family with shared prefixes, trailing separators, relative paths and roots outside the tree, across new frontends with and without the database; in sandboxes the removal notes and the file system after the build must equal the specification's RemoveTree results; the path predicate itself is checked exhaustively at function level (spec/fn/PathPrefix.tla).",
     "TLA+ spec model-checked with TLC + trace validation + TLC-enumerated prefix cases replayed through pathIsPrefixedByPath"),
